@@ -35,6 +35,7 @@ func runC04(c *Ctx) {
 	c.rule("publish-after-store", "the updatesChan send, the nil answer on the reply channel and the new-config event are dominated by the store", 3)
 	c.rule("reject-reports", "on each reject branch every path to the return submits a watchErrorEvent{err: tested error, oldConfig: View(), newConfig: derived from the compose result} and, when the reply channel is non-nil, sends the same error on it; no store is reachable", 6)
 	c.rule("events-refreshed-on-enable", "when the delayed verification is switched on, a config parked in the one-slot Events channel (sent while verification was off) is taken out and only the verified config is put back", 1)
+	c.rule("params-read-only", "the verification / callback fields of Params are never assigned inside the library", 1)
 	c.rule("blocking-report-forwarded", "every WatchArgs wrapper in the repository forwards BlockingReportNewValue to the wrapped BlockingReportNewValue and returns its result (a wrapper that forwards to the non-blocking report returns before installation and swallows the rejection)", 1)
 	c.rule("blocking-returns-error", "BlockingReportNewValue returns nil only after receiving nil from the reply channel and otherwise returns an error wrapping what it received", 2)
 	c.rule("skip-flag", "the flag that lets a re-stack skip Verify is initialised from DelayInitialVerification alone and otherwise only assigned the negated result of the enable helper (so SkipInitialVerification or any other state can never switch off verification of later updates)", 2)
@@ -106,6 +107,7 @@ func runC04(c *Ctx) {
 	c04Blocking(c, k)
 
 	k.checkSkipFlag("skip-flag")
+	k.checkParamsReadOnly("params-read-only")
 	k.checkEventsRefreshedOnEnable("events-refreshed-on-enable")
 	k.checkBlockingForwarders("blocking-report-forwarded")
 	k.checkCbLoopDrains("cbloop-drains")
